@@ -1354,6 +1354,29 @@ def auto_helper_directives(repo, files, name):
     return None
 
 
+def auto_const_directives(repo, files, name):
+    """R20 (constants): a `const NAME: T = <expr>;` that extracted code mentions but the unit does not list. Taken verbatim
+    when its initialiser is built from literals, operators, parentheses and other constants only (no calls, no blocks)."""
+    for rel in files:
+        try:
+            sf = load(os.path.join(repo, rel))
+            it = find_item(sf, ["const " + name])[-1]
+        except (Lost, OSError, TokError):
+            continue
+        text = sf.text(it.start, it.end)
+        T = tokenize(text)
+        if "=" not in [t.text for t in T]:
+            return None
+        k = [t.text for t in T].index("=")
+        init = T[k + 1:]
+        if any(t.text in ("{", "}", "[", "]", "|", "||", "&", "fn", "unsafe", "!") for t in init):
+            return None
+        if any(init[i].kind == "id" and i + 1 < len(init) and init[i + 1].text == "(" for i in range(len(init))):
+            return None
+        return ["//@ extract %s :: const %s" % (rel, name)]
+    return None
+
+
 def assemble(template_path, repo, cfgset=("debug_assertions",), variant="main", extra=()):
     """Returns (assembled_text, info) ; info = {items, rewrites, linemap}.  `extra`: directive lines (auto-extracted
     helpers, rule R20) spliced in before the unit's closing `} fn main() {}` line."""
